@@ -20,6 +20,8 @@ type Config struct {
 	KT, VT string // atom types of the string side: "string" / "int" (value kinds: KT only)
 	KRev   bool   // key / element comparator reversed (comparator-taking kinds)
 	VRev   bool   // value comparator reversed (TreeBidiMap)
+	KTie   string // relational cases: tying key / element comparator ("" = natural order)
+	VTie   string // relational cases: tying value comparator of TreeBidiMap
 	Cap    int    // CircularBuffer
 	Order  int    // BTree
 }
@@ -32,10 +34,10 @@ func (c Config) String() string {
 		fmt.Fprintf(&b, "T=%s", c.KT)
 	}
 	if takesComparator(c.Kind) {
-		b.WriteString(" cmp=" + revName(c.KRev))
+		b.WriteString(" cmp=" + cmpName(c.KRev, c.KTie))
 	}
 	if c.Kind == "TreeBidiMap" {
-		b.WriteString(" vcmp=" + revName(c.VRev))
+		b.WriteString(" vcmp=" + cmpName(c.VRev, c.VTie))
 	}
 	if c.Kind == "CircularBuffer" {
 		fmt.Fprintf(&b, " cap=%d", c.Cap)
@@ -44,6 +46,16 @@ func (c Config) String() string {
 		fmt.Fprintf(&b, " order=%d", c.Order)
 	}
 	return b.String()
+}
+
+func cmpName(rev bool, tie string) string {
+	if tie == "" {
+		return revName(rev)
+	}
+	if rev {
+		return tie + "-reversed"
+	}
+	return tie
 }
 
 func revName(rev bool) string {
@@ -199,21 +211,22 @@ func newDrv(cfg Config, twin bool) *drv {
 	d.label, d.kt, d.vt = "string side", cfg.KT, cfg.VT
 	if !isKVKind(cfg.Kind) {
 		d.vt = cfg.KT
-		if cfg.KT != "string" {
-			panic("strprobe: value kinds are instantiated with string")
+		if isStr(cfg.KT) {
+			build(d, strOf(cfg.KT), strOf(cfg.KT))
+		} else {
+			build(d, intOf(cfg.KT), intOf(cfg.KT))
 		}
-		build(d, strCodec, strCodec)
 		return d
 	}
-	switch cfg.KT + "/" + cfg.VT {
-	case "string/string":
-		build(d, strCodec, strCodec)
-	case "int/string":
-		build(d, intCodec, strCodec)
-	case "string/int":
-		build(d, strCodec, intCodec)
+	switch {
+	case isStr(cfg.KT) && isStr(cfg.VT):
+		build(d, strOf(cfg.KT), strOf(cfg.VT))
+	case !isStr(cfg.KT) && isStr(cfg.VT):
+		build(d, intOf(cfg.KT), strOf(cfg.VT))
+	case isStr(cfg.KT) && !isStr(cfg.VT):
+		build(d, strOf(cfg.KT), intOf(cfg.VT))
 	default:
-		panic("strprobe: unknown instantiation " + cfg.KT + "/" + cfg.VT)
+		build(d, intOf(cfg.KT), intOf(cfg.VT))
 	}
 	return d
 }
